@@ -120,8 +120,8 @@ theorem vote_inv (s : St) (v n h eth : Nat) (ap : Bool) (amt : Nat) (hi : Inv s)
       · exact hi.le
       · exact hi.sub
 
-theorem tryAtt_inv (s : St) (a : Att) (power : Nat → Nat) (total : Nat) (hi : Inv s)
-    (ha : a.votes.Nodup) : Inv (tryAtt s a power total).1 := by
+theorem tryAtt_inv (s : St) (a : Att) (power : Nat → Nat) (total : Nat) (ef : EventFault) (hi : Inv s)
+    (ha : a.votes.Nodup) : Inv (tryAtt s a power total ef).1 := by
   unfold tryAtt
   split
   · exact hi
@@ -164,8 +164,8 @@ theorem tryAtt_inv (s : St) (a : Att) (power : Nat → Nat) (total : Nat) (hi : 
             · exact List.Sublist.append hi.sub (List.Sublist.refl _)
             · exact hi.sub.trans (List.sublist_append_left _ _)
 
-theorem tallyAtts_inv (power : Nat → Nat) (total n : Nat) (as : List Att) :
-    ∀ s, Inv s → (∀ a ∈ as, a.votes.Nodup) → Inv (tallyAtts s power total n as).1 := by
+theorem tallyAtts_inv (power : Nat → Nat) (total n : Nat) (ef : EventFault) (as : List Att) :
+    ∀ s, Inv s → (∀ a ∈ as, a.votes.Nodup) → Inv (tallyAtts s power total n ef as).1 := by
   induction as with
   | nil => intro s hi _; exact hi
   | cons a rest ih =>
@@ -175,24 +175,24 @@ theorem tallyAtts_inv (power : Nat → Nat) (total n : Nat) (as : List Att) :
     have hrest : ∀ x ∈ rest, x.votes.Nodup := fun x hx => hnd x (by simp [hx])
     split
     · split
-      · exact tryAtt_inv s a power total hi ha
-      · exact ih _ (tryAtt_inv s a power total hi ha) hrest
+      · exact tryAtt_inv s a power total ef hi ha
+      · exact ih _ (tryAtt_inv s a power total ef hi ha) hrest
     · exact ih _ hi hrest
 
-theorem tallyKeys_inv (snap : List Att) (power : Nat → Nat) (total : Nat) (keys : List Nat)
-    (hsnap : ∀ a ∈ snap, a.votes.Nodup) : ∀ s, Inv s → Inv (tallyKeys s snap power total keys) := by
+theorem tallyKeys_inv (snap : List Att) (power : Nat → Nat) (total : Nat) (ef : EventFault) (keys : List Nat)
+    (hsnap : ∀ a ∈ snap, a.votes.Nodup) : ∀ s, Inv s → Inv (tallyKeys s snap power total ef keys) := by
   induction keys with
   | nil => intro s hi; exact hi
   | cons n rest ih =>
     intro s hi
     unfold tallyKeys
-    have h1 := tallyAtts_inv power total n (attsAt snap n) s hi (fun a ha => hsnap a (mem_attsAt ha).1)
+    have h1 := tallyAtts_inv power total n ef (attsAt snap n) s hi (fun a ha => hsnap a (mem_attsAt ha).1)
     split
     · exact h1
     · exact ih _ h1
 
-theorem tally_inv (s : St) (power : Nat → Nat) (total : Nat) (hi : Inv s) : Inv (tally s power total) :=
-  tallyKeys_inv s.atts power total _ hi.nodup s hi
+theorem tally_inv (s : St) (power : Nat → Nat) (total : Nat) (ef : EventFault) (hi : Inv s) : Inv (tally s power total ef) :=
+  tallyKeys_inv s.atts power total ef _ hi.nodup s hi
 
 theorem catchUp_inv (s : St) (hi : Inv s) : Inv (catchUp s) := by
   constructor
@@ -216,12 +216,15 @@ end Lemmas
 inductive Op where
   | vote (v n h eth : Nat) (applicable : Bool) (amount : Nat)
   | tally (power : List (Nat × Nat)) (total : Nat)
+  /-- a tally during which the observation event of the listed attestations (nonce, hash) cannot be emitted -/
+  | tallyFault (power : List (Nat × Nat)) (total : Nat) (failing : List (Nat × Nat))
   | catchUp
   | override (n : Nat)
 
 def apply (s : St) : Op → St
   | .vote v n h eth ap amt => (vote s v n h eth ap amt).1
   | .tally p t => tally s (powerOf p) t
+  | .tallyFault p t f => tally s (powerOf p) t (faultOf f)
   | .catchUp => catchUp s
   | .override n => override s n
 
@@ -239,7 +242,8 @@ theorem reachable_inv (ops : List Op) : Inv (run ops) := by
     apply ih
     cases op with
     | vote v n h eth ap amt => exact vote_inv s v n h eth ap amt hi
-    | tally p t => exact tally_inv s _ t hi
+    | tally p t => exact tally_inv s _ t _ hi
+    | tallyFault p t f => exact tally_inv s _ t _ hi
     | catchUp => exact catchUp_inv s hi
     | override n => exact override_inv s n hi
 
@@ -305,6 +309,41 @@ theorem applied_exactly_once_if_applicable (s : St) (a : Att) (power : Nat → N
           · intro hap; simp [hap]
           · intro hap; simp [hap]
 
+/-- **event_failure_loses_only_the_event.** Whether or not the observation event of an attestation
+can be emitted (the chain-info lookup behind it may fail), the state `TryAttestation` leaves is the
+same: the claim is marked observed, the cursor moved and the effect applied before the event is
+attempted. Only the result differs (`eventFailed` stops the rest of this chain's tally). -/
+theorem event_failure_loses_only_the_event (s : St) (a : Att) (power : Nat → Nat) (total : Nat) (ef : EventFault) :
+    (tryAtt s a power total ef).1 = (tryAtt s a power total).1 ∧
+    ((tryAtt s a power total ef).2 = .eventFailed → (tryAtt s a power total).2 = .observedOk) ∧
+    ((tryAtt s a power total ef).2 ≠ .eventFailed → (tryAtt s a power total ef).2 = (tryAtt s a power total).2) := by
+  unfold tryAtt
+  split
+  · simp
+  · split
+    · simp
+    · split
+      · simp
+      · split
+        · simp
+        · simp only [noFault, Bool.false_eq_true, if_false, true_and]
+          split <;> simp
+
+/-- **applied_exactly_once_under_event_failure.** The clause "exactly once whenever it can be applied
+at all" also holds for an observation whose event fails: same quorum, same cursor step, same effect. -/
+theorem applied_exactly_once_under_event_failure (s : St) (a : Att) (power : Nat → Nat) (total : Nat) (ef : EventFault)
+    (h : (tryAtt s a power total ef).2 = .eventFailed) :
+    100 * (a.votes.map power).sum > 66 * total ∧ a.nonce = s.lastObserved + 1 ∧
+    (tryAtt s a power total ef).1.lastObserved = a.nonce ∧
+    (a.applicable = true → (tryAtt s a power total ef).1.minted = s.minted + a.amount) ∧
+    (a.applicable = false → (tryAtt s a power total ef).1.minted = s.minted) := by
+  have e := event_failure_loses_only_the_event s a power total ef
+  have hok := e.2.1 h
+  have q := observed_has_quorum s a power total hok
+  have ap := applied_exactly_once_if_applicable s a power total hok
+  rw [e.1]
+  exact ⟨q.1, q.2.1, ap.1, fun hp => (ap.2.1 hp).2, fun hp => (ap.2.2 hp).2⟩
+
 /-- **consecutive_order / one_claim_per_nonce / applied_at_most_once.** Between governance
 resets: every observation happened at cursor+1, observed nonces strictly increase (so at most
 one claim per nonce is ever observed, and none twice), and the applied effects are a
@@ -358,5 +397,10 @@ example : ((run demo).atts.map (·.votes)) = [[1, 2]] ∧ (run demo).lastObserve
     (run demo).minted = 5 ∧ (run demo).effects.length = 1 := by decide
 example : (run [.vote 1 1 77 100 true 5, .override 0, .vote 1 1 77 100 true 5,
     .tally [(1, 40), (2, 30), (3, 30)] 100]).lastObserved = 0 := by decide
+/-- two claims reach quorum in one block; the event of the first cannot be emitted: it is applied, the second waits -/
+example : (run [.vote 1 1 77 100 true 5, .vote 2 1 77 100 true 5, .vote 1 2 88 101 true 6, .vote 2 2 88 101 true 6,
+    .tallyFault [(1, 40), (2, 30), (3, 30)] 100 [(1, 77)]]).minted = 5 ∧
+  (run [.vote 1 1 77 100 true 5, .vote 2 1 77 100 true 5, .vote 1 2 88 101 true 6, .vote 2 2 88 101 true 6,
+    .tally [(1, 40), (2, 30), (3, 30)] 100]).minted = 11 := by decide
 
 end Paloma.Oracle
